@@ -2,12 +2,17 @@
 M: LRefine.tla - DFDT cutoff loop and the three L-method refinement rules terminate for every table of per-cutoff
    answers (n<=13); negative instance: the pinned Refinement.original rule without the cycle guard (TLC lasso).
 T: curvature, Menger, DFDT (single pass and loop), L-method get_knee (Fit x Cost) and knee (Fit x Refinement x limit)
-   with rank tables computed from the stated criteria, judged by Trace_Detectors."""
+   with rank tables computed from the stated criteria, judged by Trace_Detectors.
+T (scale): the same detectors and options on built curves of 10^3 .. 1.1*10^5 points (long multi-step staircases whose
+   two-line error is not unimodal, kinks at block seams / beyond 2^15, smooth and textured decays, unit and ragged
+   abscissae), with SPARSE tables (the returned index, optimisers, seam neighbours, local optima; the reachable cutoffs of
+   the two refinement loops only), judged by Trace_DetectorsScale."""
 import math
+import random
 
 import numpy as np
 
-from harness import curves, monitor, numeric, par
+from harness import curves, monitor, numeric, par, scale
 from harness import enums
 
 
@@ -154,6 +159,469 @@ def _record(item):
     return c, meta
 
 
+# ---------------------------------------------------------------------------------------------------------------- scale family
+# Production-size curves.  A case is (id, spec, what): `spec` is a small dict from which _build() rebuilds the curve
+# deterministically (replay files stay small), `what` is the detector + options exactly as in the small family, plus
+# ("lknee_default",) = lmethod.knee(points) with the public defaults (judged as point fit / adjusted / limit 10).
+_EPS = 2.0 ** -52
+# fractional knots of long staircases whose length-weighted two-line error has a local minimum at the first step and
+# its global minimum thousands of split points later (the shape of a miss-ratio curve with two working sets)
+_STAIRS = {
+    "two-steps": [(0, 1000), (0.133, 500), (0.417, 450), (0.583, 50), (1, 0)],
+    "late-drop": [(0, 1000), (0.0375, 800), (0.375, 780), (0.4125, 100), (1, 90)],
+    "plateaus": [(0, 1000), (0.167, 1000), (0.183, 600), (0.667, 600), (0.7, 0), (1, 0)],
+}
+
+
+def _rand_knots(rng):
+    """a random multi-step staircase: gentle plateaus separated by 2..4 steep drops of random width and height"""
+    segs = []
+    for _ in range(rng.randrange(2, 5)):
+        segs += [("p", rng.uniform(0.08, 0.35)), ("d", rng.uniform(0.01, 0.12))]
+    segs.append(("p", rng.uniform(0.1, 0.4)))
+    tot = sum(w for _, w in segs)
+    f, level, knots = 0.0, 1000.0, [(0.0, 1000.0)]
+    for kind, w in segs:
+        f += w / tot
+        level -= rng.uniform(0.0, 40.0) if kind == "p" else rng.uniform(100.0, 500.0)
+        knots.append((round(f, 6), round(level, 3)))
+    knots[-1] = (1.0, knots[-1][1])
+    m = min(v for _, v in knots)
+    return [[a, round(v - m, 3)] for a, v in knots]
+
+
+def _build(spec):
+    """spec -> (n, 2) float64, finite, strictly increasing x, y >= 0"""
+    n, b = int(spec["n"]), spec["b"]
+    if spec.get("x") == "ragged":               # uneven, exactly representable abscissae
+        xs = np.concatenate([[0.0], np.cumsum(scale.tile([1.0, 2.0, 1.0, 3.0, 1.0, 1.0, 2.0], n - 1))])
+    else:
+        xs = np.arange(n, dtype=float)
+    t = xs / xs[-1]
+    i = np.arange(n, dtype=float)
+    if b == "pl":
+        y = np.interp(t, [k[0] for k in spec["knots"]], [k[1] for k in spec["knots"]])
+        if spec.get("tex"):                      # no exactly straight segment: every prefix has a well-defined best split
+            y = y + spec["tex"] * (1.0 + np.sin(53.0 * t))
+    elif b == "exp":                             # smooth decay with a slow smooth texture (real-valued, no ties)
+        y = 1000.0 * np.exp(-spec["a"] * t) + spec["amp"] * (1.0 + np.sin(spec["w"] * t))
+    elif b == "hyper":
+        y = 1000.0 / (1.0 + spec["a"] * t)
+    elif b == "kink":
+        # smooth convex decay, one sharp kink at index p (the unique curvature / Menger optimum) and weaker ones before it
+        y = 1000.0 * (1.0 - i / n) ** 2
+        for q, s in [(spec["p"], spec["s"])] + [(q, spec["s"] / 4.0) for q in spec["decoys"]]:
+            y = y + (s / n) * np.maximum(0.0, q - i)
+    elif b == "mrc":
+        y = scale.mrc(n, random.Random(spec["seed"]), knees=spec["knees"])[:, 1]
+    elif b == "stair":
+        y = scale.staircase(n, spec["steps"], rng=random.Random(spec["seed"]), grow=spec["grow"], jitter=spec["jitter"])[:, 1]
+    elif b == "convex":
+        y = scale.convex_pl(n, spec["corners"])[:, 1]
+    elif b == "valley":
+        y = scale.valley(n, rng=random.Random(spec["seed"]))[:, 1]
+    elif b == "elbow":
+        y = scale.elbow(n, spec["corner"], spec["s1"], spec["s2"])[:, 1]
+    elif b == "jline":
+        y = scale.jitter_line(n, spec["a"], spec["b2"], spec["amp"], slope=-900.0 / n, top=1000.0)[:, 1]
+    elif b == "spikes":
+        y = scale.spikes(n, period=spec["period"])[:, 1]
+    else:
+        raise ValueError(b)
+    fl = spec.get("flip", "")
+    if "h" in fl:
+        y = y[::-1]
+    if "v" in fl:
+        y = y.max() - y
+    y = np.ascontiguousarray(y, dtype=float)
+    P = np.ascontiguousarray(np.column_stack([xs, y - min(0.0, float(y.min()))]))
+    assert P.shape == (n, 2) and np.all(np.isfinite(P)) and np.all(np.diff(P[:, 0]) > 0) and P[:, 1].min() >= 0
+    return P
+
+
+def _nranks(v, rel=numeric.REL, ab=numeric.ABS):
+    """numeric.ranks (noise-merged dense ranks, NaN -> -1) in NumPy, for vectors of 10^5 entries"""
+    v = np.asarray(v, dtype=float)
+    r = np.full(len(v), -1, dtype=np.int64)
+    ok = np.flatnonzero(~np.isnan(v))
+    if len(ok) == 0:
+        return r
+    order = ok[np.argsort(v[ok], kind="stable")]
+    s = v[order]
+    with np.errstate(invalid="ignore"):
+        new = ~(np.abs(s[1:] - s[:-1]) <= np.maximum(ab, rel * np.maximum(np.abs(s[1:]), np.abs(s[:-1]))))
+    r[order] = np.concatenate([[0], np.cumsum(new)])
+    return r
+
+
+def _sparse(r, lo, hi, result, sense, extra=()):
+    """the selection of indices that reaches TLC: r = full rank vector (by index).  Returns idx, rank, size of the optimiser
+    set, number of rank classes in lo..hi; None if a criterion value in the range is undefined (pins nothing)."""
+    ra = np.asarray(r[lo:hi + 1])
+    if len(ra) == 0 or np.any(ra < 0):
+        return None
+    opt = lo + np.flatnonzero(ra == (ra.max() if sense == "max" else ra.min()))
+    pick = {lo, hi}
+    if lo <= result <= hi:
+        pick.add(int(result))
+    pick.update(int(opt[j]) for j in np.unique(np.linspace(0, len(opt) - 1, min(len(opt), 12)).astype(int)))
+    pick.update(t + d for t in scale.THRESHOLDS for d in (-1, 0, 1) if lo <= t + d <= hi)
+    pick.update(int(j) for j in np.linspace(lo, hi, 24).astype(int))
+    pick.update(int(e) for e in extra if lo <= e <= hi)
+    idx = sorted(pick)
+    return idx, [int(r[k]) for k in idx], int(len(opt)), int(len(np.unique(ra)))
+
+
+def _lband(n, y, cost, emin):
+    """noise of the two-line error on n points: every residual carries a rounding error of a few ulps of the ordinates, so
+    sqrt(RSS) is known to about sqrt(n)*eps*|y| and RSS to twice that times sqrt(RSS); relative noise grows like n*eps"""
+    d = 64.0 * _EPS * math.sqrt(n) * (float(np.max(np.abs(y))) + 1.0)
+    ab = d if cost == "rmse" else d * d + 2.0 * d * math.sqrt(max(emin, 0.0))
+    return numeric.REL + 8.0 * n * _EPS, max(numeric.ABS, ab)
+
+
+def _lscan(x, y, fit, cost):
+    """the independent criterion on every split 2..n-3 of the curve and its noise-merged ranks (by index)"""
+    n = len(x)
+    E = np.array([_lerr(x, y, i, fit, cost) for i in range(2, n - 2)])
+    rel, ab = _lband(n, y, cost, float(np.nanmin(E)) if not np.all(np.isnan(E)) else 0.0)
+    r = np.concatenate([[-1, -1], _nranks(E, rel, ab), [-1, -1]])
+    return E, r
+
+
+def _lclosure(x, y, fit, mode, limit, cap_cut=24, cap_set=6, cap_states=4000):
+    """sparse A table: the optimiser sets of the prefixes that the refinement machine (DetectorProps.LFinals) can reach from
+    cutoff n.  None when a tie set or the reachable set is too large to enumerate (the case then pins nothing)."""
+    n = len(x)
+    cache = {}
+
+    def argset(cut):
+        if cut not in cache:
+            if cut + 1 < 5 or len(cache) >= (cap_cut if fit == "pointfit" else 8):
+                cache[cut] = [] if cut + 1 < 5 else None
+            else:
+                _, r = _lscan(x[:cut + 1], y[:cut + 1], fit, "rmse")
+                ra = r[2:-2]
+                cache[cut] = None if np.any(ra < 0) else [int(k) for k in 2 + np.flatnonzero(ra == ra.min())]
+        return cache[cut]
+
+    stack, seen_states = [(n, -1, n, frozenset())], set()
+    while stack:
+        st = stack.pop()
+        cur, last, cutoff, seen = st
+        if cur == last or st in seen_states:
+            continue
+        seen_states.add(st)
+        ks = argset(min(cutoff, n))
+        if ks is None or len(ks) > cap_set or len(seen_states) > cap_states:
+            return None
+        for c2 in ks:
+            if mode == "adjusted":
+                stack.append((c2, cur, max(limit, (c2 + cur) // 2), seen))
+            elif mode == "original" and c2 not in seen:
+                stack.append((c2, cur, max(limit, min(2 * c2, n)), seen | {c2}))
+    return [{"cut": int(c), "ks": ks} for c, ks in sorted(cache.items())]
+
+
+def _dclosure(g, cap_cut=200, cap_set=8):
+    """sparse G table: argmin sets of |gradient - isodata(gradient)| over the interior of the suffixes that the DFDT loop
+    machine (DetectorProps.DfdtFinals) can reach from cutoff 0; None when a tie set is too large to enumerate"""
+    import uts.thresholding as th
+    n = len(g)
+    cache = {}
+    stack, seen_states = [(0, -1, 0)], set()
+    while stack:
+        st = stack.pop()
+        knee, last, cutoff = st
+        if st in seen_states or not (last < knee and n - cutoff > 2):
+            continue
+        seen_states.add(st)
+        if cutoff not in cache:
+            if len(cache) >= cap_cut:
+                return None
+            gg = g[cutoff:]
+            ra = _nranks(np.absolute(gg - th.isodata(gg))[1:-1])
+            cache[cutoff] = None if np.any(ra < 0) else [int(k) for k in cutoff + 1 + np.flatnonzero(ra == ra.min())[:cap_set + 1]]
+        ks = cache[cutoff]
+        if ks is None or len(ks) > cap_set:
+            return None
+        for k in ks:
+            stack.append((k, knee, (k + 1) // 2))
+    return [{"cut": int(c), "ks": ks} for c, ks in sorted(cache.items())]
+
+
+def _record_scale(item):
+    import kneeliverse.curvature as cu
+    import kneeliverse.dfdt as df
+    import kneeliverse.menger as me
+    import kneeliverse.lmethod as lm
+    import uts.gradient as grad
+    import uts.thresholding as th
+    cid, spec, what = item
+    what = tuple(what) if isinstance(what, list) else what
+    P = _build(spec)
+    x, y = P[:, 0].copy(), P[:, 1].copy()
+    n = len(P)
+    _WIDE[0] = False
+    # what the detector is called with: the same integral curve as an int64 array when the spec asks for it
+    PC = P.astype(np.int64) if spec.get("dtype") == "int64" and np.all(P == np.floor(P)) else P
+    xc, yc = PC[:, 0].copy(), PC[:, 1].copy()
+    meta = {"spec": spec, "what": what, "n": n, "nt": False, "dtype": str(PC.dtype)}
+    best = not isinstance(what, str) and len(what) > 1 and what[1] == "bestfit"
+    # hang detectors only: total back-edges quadratic in n, CPU seconds about 40x what the unchanged code needs
+    B, W = monitor.quad(n, 8), int(120 + (1.5e-6 if best else 1e-7) * n * n)
+
+    def base(kind, res, lo_ok=1, hi_ok=None):
+        o, v, _ = res
+        c = {"id": cid, "kind": kind, "n": n, "outcome": o, "result": -1, "lo_ok": lo_ok, "hi_ok": n - 2 if hi_ok is None else hi_ok}
+        if o == "returned":
+            if isinstance(v, tuple):
+                v = v[0]
+            c["result"] = int(v) if v is not None else -1
+        else:
+            meta["error"] = v
+        return c
+
+    def argopt(c, det, sense, lo, hi, r, extra=()):
+        sp = _sparse(r, lo, hi, c["result"], sense, extra)
+        if sp is None:
+            meta["unpinned"] = "undefined criterion value"
+            c["kind"] = "common"
+            return c
+        c.update(det=det, sense=sense, lo=lo, hi=hi, idx=sp[0], rank=sp[1])
+        meta.update(optimisers=sp[2], nt=sp[3] >= 2)
+        return c
+
+    if what == "curvature":
+        c = base("argopt", monitor.call(cu.knee, (PC,), budget=B, wall=W))
+        g1, g2 = grad.cfd(x, y), grad.csd(x, y)
+        crit = np.absolute(g2) / ((1.0 + g1 ** 2.0) ** 1.5)
+        argopt(c, "curvature", "max", 1, n - 2, np.concatenate([[-1], _nranks(crit[1:-1]), [-1]]))
+    elif what == "menger":
+        c = base("argopt", monitor.call(me.knee, (PC,), budget=B, wall=W), lo_ok=0)
+        f, g, h = P[:-2], P[1:-1], P[2:]
+        cr = np.abs((g[:, 0] - f[:, 0]) * (h[:, 1] - f[:, 1]) - (h[:, 0] - f[:, 0]) * (g[:, 1] - f[:, 1]))
+        den = np.hypot(*(g - f).T) * np.hypot(*(h - g).T) * np.hypot(*(h - f).T)
+        with np.errstate(invalid="ignore", divide="ignore"):
+            crit = np.concatenate([[0.0], np.where(den > 0, 2.0 * cr / den, np.nan), [0.0]])
+        argopt(c, "menger", "max", 0, n - 1, _nranks(crit))
+    elif what == "dfdt_get":
+        c = base("argopt", monitor.call(df.get_knee, (xc, yc), budget=B, wall=W))
+        g = grad.cfd(x, y)
+        d = np.absolute(g - th.isodata(g))
+        argopt(c, "dfdt.get_knee", "min", 1, n - 2, np.concatenate([[-1], _nranks(d[1:-1]), [-1]]))
+    elif what == "dfdt":
+        c = base("dfdt", monitor.call(df.knee, (PC,), budget=B, wall=W))
+        G = _dclosure(grad.cfd(x, y))
+        if G is None:
+            meta["unpinned"] = "tie sets of the DFDT criterion too large to enumerate"
+            c["kind"] = "common"
+        else:
+            c.update(G=G, fuel=n + 3)
+            meta.update(cutoffs=len(G), nt=len(G) >= 2)
+    elif what[0] == "lget":
+        fit, cost = enums.pick(lm.Fit, what[1]), enums.pick(lm.Cost, what[2])
+        c = base("argopt", monitor.call(lm.get_knee, (xc, yc, fit, cost), budget=B, wall=W), lo_ok=2, hi_ok=n - 3)
+        E, r = _lscan(x, y, what[1], what[2])
+        loc = 2 + 1 + np.flatnonzero((E[1:-1] < E[:-2]) & (E[1:-1] < E[2:]))          # strict local minima of the criterion
+        loc = loc[np.argsort(E[loc - 2], kind="stable")[:12]]
+        argopt(c, "lmethod.get_knee(%s,%s)" % (what[1], what[2]), "min", 2, n - 3, r, extra=loc)
+        length = x[-1] - x[0]
+        for k in c["idx"]:
+            a, b = float(E[k - 2]), float(lm.compute_error(x, y, k, length, fit, cost)[0])
+            if not numeric.close(a, b, rel=1e-6, ab=1e-9 * (1.0 + float(np.max(np.abs(E))))):
+                meta["drift"] = "lmethod.compute_error differs from the independent criterion at split %d (n=%d): %r vs %r" % (k, n, b, a)
+                break
+        # the longest stretch of splits without a new running minimum on the way to the global one (0 = unimodal descent)
+        recs = np.concatenate([[0], 1 + np.flatnonzero(E[1:] < np.minimum.accumulate(E)[:-1])])
+        meta["gap"] = int(np.max(np.diff(recs))) if len(recs) > 1 else 0
+    else:  # ("lknee", fit, mode, limit) | ("lknee_default",)
+        if what[0] == "lknee_default":
+            fitn, mode, limit = "pointfit", "adjusted", 10
+            res = monitor.call(lm.knee, (PC,), budget=B, wall=W)
+        else:
+            fitn, mode, limit = what[1], what[2], what[3]
+            res = monitor.call(lm.knee, (PC, enums.pick(lm.Fit, fitn), enums.pick(lm.Refinement, mode), limit), budget=B, wall=W)
+        c = base("lknee", res, lo_ok=1)
+        A = _lclosure(x, y, fitn, mode, limit)
+        if A is None:
+            meta["unpinned"] = "tie sets / reachable prefixes of the refinement too many to enumerate"
+            c["kind"] = "common"
+        else:
+            c.update(A=A, mode=mode, limit=limit, fuel=n + 3)
+            meta.update(cutoffs=len(A), nt=True)
+    return c, meta
+
+
+def _scale_items(ctx):
+    rng = ctx.rng
+    q = ctx.quick
+    items = []
+
+    def add(spec, what, cost):
+        items.append((cost, ("S%d" % len(items), spec, what)))
+
+    def pl(n, knots, **kw):
+        return dict({"b": "pl", "n": n, "knots": [list(k) for k in knots]}, **kw)
+
+    def near(t):                                   # a ragged size just above a typical threshold
+        return t + 1 + rng.randrange(0, max(2, t // 5))
+
+    # ---- L-method: quadratic in n (every split refits both lines), so the sizes are tiered
+    lgets = [("lget", f, c) for f in ("pointfit", "bestfit") for c in ("rmse", "rss")]
+    lknees = [("lknee", f, m, lim) for f in ("pointfit", "bestfit") for m in ("none", "original", "adjusted") for lim in (4, 10, 1000)]
+    tiers = [(near(1024) + 500, 3, True), (near(4096), 3, True), (rng.choice([near(8192), near(10000)]), 2, True), (near(16384), 2, False),
+             (near(32768), 1, False)]
+    if not q:
+        tiers += [(near(8192), 3, True), (near(10000), 3, True), (near(16384), 2, True), (near(32768), 3, False),
+                  (near(32768), 1, True), (near(65536), 2, False), (100001 + rng.randrange(0, 5000), 1, False)]
+    for n, nshapes, bestfit_ok in tiers:
+        shapes = [pl(n, k, name=nm, tex=rng.choice([1.0, 3.0])) for nm, k in _STAIRS.items()]
+        rng.shuffle(shapes)
+        shapes = shapes[:nshapes] if n > 12000 else shapes
+        for _ in range(nshapes):
+            kind = rng.choice(["rand", "rand", "rand-h", "rand-v", "ragged", "mrc", "exp", "hyper", "stair"])
+            if kind.startswith("rand"):
+                shapes.append(pl(n, _rand_knots(rng), flip=kind[5:], tex=rng.choice([0.0, 2.0, 4.0])))
+            elif kind == "ragged":
+                shapes.append(pl(n, rng.choice(list(_STAIRS.values()) + [_rand_knots(rng)]), x="ragged", tex=rng.choice([0.0, 2.0])))
+            elif kind == "mrc":
+                shapes.append({"b": "mrc", "n": n, "seed": rng.randrange(10 ** 6), "knees": rng.randrange(2, 7)})
+            elif kind == "exp":
+                shapes.append({"b": "exp", "n": n, "a": rng.choice([3.0, 6.0, 12.0]), "amp": rng.choice([0.0, 5.0]), "w": rng.choice([9.0, 40.0]),
+                               "x": rng.choice(["unit", "ragged"])})
+            elif kind == "hyper":
+                shapes.append({"b": "hyper", "n": n, "a": rng.choice([10.0, 60.0])})
+            else:
+                shapes.append({"b": "stair", "n": n, "steps": rng.randrange(3, 7), "seed": rng.randrange(10 ** 6), "grow": rng.random() < 0.5, "jitter": 0,
+                               "dtype": rng.choice(["float64", "int64"])})
+        cp, cb = 4e-9 * n * n, 6e-8 * n * n            # seconds of one point-fit / best-fit scan plus its oracle
+        for k, sp in enumerate(shapes):
+            big = n > 12000
+            # the two point-fit costs and the public defaults on every shape; the other options sampled
+            ws = [("lget", "pointfit", "rmse"), ("lget", "pointfit", "rss")]
+            if n > (20000 if q else 60000):
+                ws = [ws[k % 2]]
+            if n <= (20000 if q else 40000):       # a refinement is about three scans
+                if not big or k % 2 == 0:
+                    ws.append(("lknee_default",))
+                if not (q and big) or k % 2 == 1:
+                    ws += rng.sample([w for w in lknees if w[1] == "pointfit"], 1 if big else 2)
+            if bestfit_ok and (n <= 5500 or k < (1 if q else 2)) and not (q and n > 10000):
+                ws += rng.sample([w for w in lgets if w[1] == "bestfit"], 1)
+                if n <= 5500 and (k % 3 == 0 or not q):
+                    ws += rng.sample([w for w in lknees if w[1] == "bestfit" and w[2] != "original"], 1)
+            for w in ws:
+                add(sp, w, (cb if w[1:2] == ("bestfit",) else cp) * (3.0 if w[0].startswith("lknee") else 1.0))
+
+    # ---- curvature, Menger, DFDT (single pass and loop): linear in n
+    for n in scale.sizes(ctx, lo=1000, hi=110000, k_quick=4, k_thorough=10):
+        seams = [t + d for t in scale.THRESHOLDS for d in (-1, 0, 1) if 1 <= t + d <= n - 2]
+        ps = [rng.choice(seams), n - 2 - rng.randrange(0, 3), rng.randrange(n // 2, n - 2) | 1, rng.randrange(1, n - 2)]
+        shapes = [{"b": "kink", "n": n, "p": p, "s": rng.choice([100.0, 400.0]),
+                   "decoys": sorted(rng.sample(range(1, max(2, p)), min(3, max(0, p - 1))))} for p in (ps if not q else rng.sample(ps, 3))]
+        pool = [{"b": "mrc", "n": n, "seed": rng.randrange(10 ** 6), "knees": rng.randrange(3, 9)},
+                {"b": "exp", "n": n, "a": rng.choice([3.0, 8.0]), "amp": 5.0, "w": rng.choice([9.0, 40.0, 300.0]), "x": rng.choice(["unit", "ragged"])},
+                {"b": "stair", "n": n, "steps": rng.randrange(5, 200), "seed": rng.randrange(10 ** 6), "grow": True, "jitter": 0,
+                 "dtype": rng.choice(["float64", "int64"])},
+                {"b": "stair", "n": n, "steps": rng.randrange(5, 60), "seed": rng.randrange(10 ** 6), "grow": False, "jitter": rng.choice([0, 1])},
+                {"b": "convex", "n": n, "corners": rng.randrange(3, 40), "flip": rng.choice(["", "h"]), "dtype": rng.choice(["float64", "int64"])},
+                {"b": "valley", "n": n, "seed": rng.randrange(10 ** 6), "dtype": rng.choice(["float64", "int64"])},
+                {"b": "elbow", "n": n, "corner": rng.choice(seams), "s1": -0.5, "s2": -0.03125},
+                {"b": "jline", "n": n, "a": n // 3, "b2": n // 3 + 50, "amp": 2.0},
+                {"b": "spikes", "n": n, "period": rng.choice([4, 7])},
+                pl(n, rng.choice(list(_STAIRS.values())), x=rng.choice(["unit", "ragged"])),
+                {"b": "hyper", "n": n, "a": rng.choice([10.0, 60.0]), "x": "ragged"}]
+        shapes += rng.sample(pool, 5 if q else 9)
+        for sp in shapes:
+            for w in ("curvature", "menger", "dfdt_get", "dfdt"):
+                add(sp, w, 1e-5 * n)
+    items.sort(key=lambda t: -t[0])                # longest first: the pool takes them one by one
+    return [it for _, it in items]
+
+
+_SSTATIC = [
+    {"id": "z0", "kind": "argopt", "n": 5000, "outcome": "returned", "result": 4097, "lo_ok": 2, "hi_ok": 4997, "det": "lmethod.get_knee",
+     "sense": "min", "lo": 2, "hi": 4997, "idx": [2, 700, 4095, 4096, 4097, 4997], "rank": [4100, 9, 2, 1, 0, 3000]},
+    {"id": "z1", "kind": "dfdt", "n": 40000, "outcome": "returned", "result": 33000, "lo_ok": 1, "hi_ok": 39998, "fuel": 40003,
+     "G": [{"cut": 0, "ks": [20000]}, {"cut": 10000, "ks": [33000, 33001]}, {"cut": 16500, "ks": [33000]}, {"cut": 16501, "ks": [33001]}]},
+    {"id": "z2", "kind": "lknee", "n": 6000, "outcome": "returned", "result": 1200, "lo_ok": 1, "hi_ok": 5998, "mode": "adjusted", "limit": 10, "fuel": 6003,
+     "A": [{"cut": 6000, "ks": [3500]}, {"cut": 4750, "ks": [1250]}, {"cut": 2375, "ks": [1200]}, {"cut": 1225, "ks": [1200]}]},
+]
+
+
+def _scale_selftests():
+    import copy
+    z0, z1, z2 = [copy.deepcopy(s) for s in _SSTATIC]
+    out = [(z0, "ok"), (z1, "ok"), (z2, "ok")]
+    c = copy.deepcopy(z0); c["result"] = 700; out.append((c, "not-optimal"))           # the early local minimum
+    c = copy.deepcopy(z0); c["result"] = 4096; out.append((c, "not-optimal"))          # one before the seam
+    c = copy.deepcopy(z0); c["result"] = 4998; out.append((c, "interior"))
+    c = copy.deepcopy(z0); c["result"] = 3000; out.append((c, "table-incomplete"))
+    c = copy.deepcopy(z0); c["outcome"] = "watchdog"; out.append((c, "terminates"))
+    c = copy.deepcopy(z1); c["result"] = 33001; out.append((c, "ok"))
+    c = copy.deepcopy(z1); c["result"] = 20000; out.append((c, "loop-fixpoint"))
+    c = copy.deepcopy(z1); c["result"] = 232; out.append((c, "loop-fixpoint"))         # 33000 - 2^15
+    c = copy.deepcopy(z1); c["G"] = c["G"][:3]; out.append((c, "table-incomplete"))
+    c = copy.deepcopy(z2); c["result"] = 1250; out.append((c, "loop-fixpoint"))
+    c = copy.deepcopy(z2); c["result"] = 3500; out.append((c, "loop-fixpoint"))
+    c = copy.deepcopy(z2); c["mode"] = "none"; c["result"] = 3500; out.append((c, "ok"))
+    c = copy.deepcopy(z2); c["A"][2]["ks"] = []; c["result"] = 77; out.append((c, "ok"))     # unpinned prefix
+    return out
+
+
+def _validate_scale(ctx, cases, selftest):
+    rej = ctx.trace("Trace_DetectorsScale", cases, selftest=_scale_selftests() if selftest else None, chunk=400)
+    bad = {cid: vs for cid, vs in rej.items() if any(v[0] == "table-incomplete" for v in vs)}
+    if bad:
+        from harness.main import Machinery
+        raise Machinery("Trace_DetectorsScale: the recorder produced an incomplete sparse table: %s" % sorted(bad.items())[:3])
+    return rej
+
+
+def _match(clause, w):
+    return "%s:%s" % (clause, w if isinstance(w, str) else ":".join(str(v) for v in w[:3]))
+
+
+def run_scale(ctx):
+    from harness.main import Machinery
+    for _ in range(20):                            # the NumPy ranks are the table's ranks
+        v = [ctx.rng.choice([0.0, 1.0, 1.0 + 5e-10, 1.0 + 1e-9, 2.0, float("nan"), -3.0, 1e-13]) for _ in range(12)]
+        if list(_nranks(v)) != numeric.ranks(v):
+            raise Machinery("c09._nranks differs from numeric.ranks on %s" % v)
+    items = _scale_items(ctx)
+    rec = par.pmap(_record_scale, items, chunksize=1)
+    cases = [c for c, _ in rec]
+    meta = {c["id"]: m for c, m in rec}
+    nbytes = len(__import__("json").dumps(cases))
+    rej = _validate_scale(ctx, cases, selftest=True)
+    agg = {"cases": len(cases), "sizes": sorted(set(m["n"] for m in meta.values())), "json_bytes_to_tlc": nbytes,
+           "by_detector": {}, "unpinned": 0, "lmethod_scans_with_a_rise_more_than_1000_splits_before_the_optimum": 0,
+           "optimum_beyond_2^15": 0, "largest_refinement_table": 0, "int64_calls": 0}
+    for c in cases:
+        m = meta[c["id"]]
+        w = m["what"] if isinstance(m["what"], str) else ":".join(str(v) for v in m["what"][:3])
+        agg["by_detector"][w] = agg["by_detector"].get(w, 0) + 1
+        agg["unpinned"] += "unpinned" in m
+        agg["int64_calls"] += m["dtype"] == "int64"
+        agg["lmethod_scans_with_a_rise_more_than_1000_splits_before_the_optimum"] += m.get("gap", 0) > 1000
+        agg["optimum_beyond_2^15"] += c["result"] > 32768 and m["nt"]
+        agg["largest_refinement_table"] = max(agg["largest_refinement_table"], m.get("cutoffs", 0))
+        ctx.count(("scale", m["spec"], str(m["what"])), m["nt"])
+        if "drift" in m:
+            ctx.note("DRIFT: " + m["drift"][:300])
+    ctx.extra["scale"] = agg
+    if agg["lmethod_scans_with_a_rise_more_than_1000_splits_before_the_optimum"] < 4 or agg["unpinned"] > len(cases) // 3:
+        raise Machinery("scale family is vacuous: %s" % agg)
+    for cid, vs in rej.items():
+        m = meta[cid]
+        ctx.violation(vs[0][0], {"kind": "S", "spec": m["spec"], "what": m["what"], "cid": cid},
+                      {"verdict": vs[0][:6], "error": m.get("error"), "family": "scale", "n": m["n"]}, match=_match(vs[0][0], m["what"]))
+    big = max(cases, key=lambda c: (c["kind"] == "argopt" and meta[c["id"]]["nt"], c["n"]))
+    ctx.sample({"binding": "T", "family": "scale", "spec": meta[big["id"]]["spec"], "call": meta[big["id"]]["what"],
+                "case": {k: v for k, v in big.items() if k != "id"}})
+
+
 def inputs(ctx):
     rng = ctx.rng
     items = []
@@ -230,7 +698,12 @@ def _selftests():
 def run(ctx):
     ctx.rule = ("curves with 5<=n<=60 (adversarial, sampled grid, random families) x {curvature, Menger, DFDT single pass, "
                 "DFDT loop, L-method get_knee (Fit x Cost), L-method knee (Fit x Refinement x limit in {4,5,10})}; "
-                "non-trivial: the criterion has at least two distinct rank classes over the admissible range")
+                "non-trivial: the criterion has at least two distinct rank classes over the admissible range; "
+                "scale family: the same detectors and options (plus lmethod.knee with its public defaults) on built curves of "
+                "10^3 .. 1.1*10^5 points (L-method: 1.5*10^3 .. 3.9*10^4 quick / 1.05*10^5 thorough, best fit up to 10^4 / 3.9*10^4) - "
+                "long multi-step staircases whose two-line error is not unimodal, kinks at block seams and beyond 2^15, smooth / "
+                "textured decays, unit and ragged abscissae - judged by Trace_DetectorsScale on sparse tables (returned index, "
+                "optimisers, seam neighbours, local optima; reachable cutoffs of the two refinement loops)")
     ctx.assumptions += numeric.ASSUMPTIONS + [
         "criteria are recomputed by the harness from the stated formulas: uts.gradient.cfd/csd and |f''|/(1+f'^2)^1.5; "
         "|gradient - uts.thresholding.isodata(gradient)| per reachable cutoff; 2|cross|/(product of side lengths); "
@@ -238,7 +711,11 @@ def run(ctx):
         "lmethod.compute_error on every reachable prefix; a disagreement with compute_error is a DRIFT note",
         "first-versus-last optimiser on ties is not pinned by the property: any member of the noise-merged optimiser set is accepted",
         "L-method: limit >= 4 so that every refined prefix has the 5 points the method needs (limit < 4 is outside the "
-        "property's domain n >= 5); prefixes shorter than 5 points pin nothing"]
+        "property's domain n >= 5); prefixes shorter than 5 points pin nothing",
+        "scale family: the two-line error on n points is ranked with the noise band rel 1e-9 + 8 n eps / abs 64 eps sqrt(n) max|y| "
+        "(RSS form: the band of the square); only the selected indices of a rank vector reach TLC, their ranks are those of the "
+        "full vector; a refinement / DFDT case whose reachable tie sets cannot be enumerated (a tie set of more than 6 / 8 "
+        "members, e.g. an exactly straight prefix, or more than 24 / 200 reachable prefixes) pins termination and interiority only"]
     ctx.mc("LRefine", "MC_LRefine", need_actions=("LStep", "LEnd", "DStep", "DEnd"))
     ctx.mc("LRefine", "MC_LRefine_unguarded", expect="<temporal>")
     ctx.mc("LRefine", "MC_LRefine_prevguard", expect="<temporal>")     # a 2-cycle guard admits a cycle of length 3
@@ -263,11 +740,17 @@ def run(ctx):
                       {"verdict": vs[0][:6], "error": m.get("error")},
                       match="%s:%s" % (vs[0][0], w if isinstance(w, str) else ":".join(str(v) for v in w[:3])))
     ctx.sample({"binding": "T", "call": meta[cases[3]["id"]]["what"], "case": {k: v for k, v in cases[3].items() if k != "id"}})
+    run_scale(ctx)
 
 
 def replay(ctx, obj):
     c = obj["case"]
     w = c["what"]
+    if c.get("kind") == "S":
+        case, m = _record_scale((c.get("cid", "replay"), c["spec"], w))
+        for cid, vs in _validate_scale(ctx, [case], selftest=False).items():
+            ctx.violation(vs[0][0], c, {"verdict": vs[0][:6], "error": m.get("error"), "family": "scale", "n": m["n"]})
+        return
     case, m = _record((c.get("cid", "replay"), c["points"], tuple(w) if isinstance(w, list) else w))
     rej = ctx.trace("Trace_Detectors", [case])
     for cid, vs in rej.items():
